@@ -11,7 +11,7 @@ ID = 'C12'
 LAYOUTS = [(o, ri) for o in range(-6, 6) for ri in range(-6, 6) if o % 6 != ri % 6]
 RULE = ('Hypothesis draws (filter pair, J in 1..4, H,W incl. odd / non-multiple-of-4, N, C, (o_dim, ri_dim) from all 132 '
         'integer pairs in -6..5 with different positions (30 layouts and their negative aliases), skip_hps mask, '
-        'include_scale mask, dtype, content recipe). Oracles (bitwise unless stated): (a) moving the orientation and '
+        'include_scale mask, level-1 padding mode (symmetric, or zero for 1/3 of the cases), dtype, content recipe). Oracles (bitwise unless stated): (a) moving the orientation and '
         'real/imag axes back gives the default-layout subbands, lowpass identical; (b) the inverse configured with the '
         'same pair on that layout equals the default inverse on the default layout and reconstructs x; (c) skipped '
         'levels are placeholders, everything else unchanged; (d) requested scales equal the lowpasses of the shorter '
@@ -52,6 +52,7 @@ def _case(draw, unit):
     return {'biort': b, 'qshift': q, 'J': J, 'size': [draw(dtu.size_strategy(24)), draw(dtu.size_strategy(24))],
             'N': draw(st.sampled_from([1, 2])), 'C': draw(st.sampled_from([1, 2, 3])),
             'o_dim': o, 'ri_dim': ri, 'skip': mask(), 'scales': mask(),
+            'mode': draw(st.sampled_from(['symmetric', 'symmetric', 'zero'])),
             'dtype': draw(st.sampled_from(['f64', 'f64', 'f32'])),
             'rx': draw(core.recipe_strategy())}
 
@@ -87,7 +88,9 @@ def run_case(case):
     skip = [bool(case['skip'])] * J if isinstance(case['skip'], bool) else list(case['skip'])
     scl = [bool(case['scales'])] * J if isinstance(case['scales'], bool) else list(case['scales'])
     nondefault = (o % 6, ri % 6) != (2, 5)
+    mode = case.get('mode', 'symmetric')
     r.label(*dtu.size_labels(H, W, J))
+    r.label('mode_' + mode)
     r.label('nondefault_layout' if nondefault else None, 'negative_alias' if (o < 0 or ri < 0) else None,
             'some_skipped' if any(skip) else None, 'all_skipped' if all(skip) else None,
             'some_scales' if any(scl) else None, 'J>=2' if J >= 2 else None, case['dtype'],
@@ -95,11 +98,11 @@ def run_case(case):
     r.nontrivial = nondefault or (any(skip) and not all(skip)) or (any(scl) and not all(scl))
     x = torch.tensor(core.make(case['rx'], [case['N'], case['C'], H, W]), dtype=tdt)
     with dwtu.default_dtype(tdt):
-        base = DTCWTForward(biort=b, qshift=q, J=J)
+        base = DTCWTForward(biort=b, qshift=q, J=J, mode=mode)
         fwd = DTCWTForward(biort=b, qshift=q, J=J, o_dim=o, ri_dim=ri, skip_hps=case['skip'],
-                           include_scale=case['scales'])
-        inv0 = DTCWTInverse(biort=b, qshift=q)
-        inv = DTCWTInverse(biort=b, qshift=q, o_dim=o, ri_dim=ri)
+                           include_scale=case['scales'], mode=mode)
+        inv0 = DTCWTInverse(biort=b, qshift=q, mode=mode)
+        inv = DTCWTInverse(biort=b, qshift=q, o_dim=o, ri_dim=ri, mode=mode)
     yl0, yh0 = core.libcall(base, x)
     ok, out = lib(fwd, x)
     if not ok:
@@ -114,7 +117,7 @@ def run_case(case):
         for j in range(J):
             if scl[j]:
                 with dwtu.default_dtype(tdt):
-                    short = DTCWTForward(biort=b, qshift=q, J=j + 1)
+                    short = DTCWTForward(biort=b, qshift=q, J=j + 1, mode=mode)
                 lj, _ = core.libcall(short, x)
                 if not same(yl[j], lj):
                     r.fail('scale_values', 'requested scale %d differs from the lowpass of the %d-level transform' %
@@ -143,7 +146,7 @@ def run_case(case):
     # (e) prefix consistency
     for j in range(1, J):
         with dwtu.default_dtype(tdt):
-            short = DTCWTForward(biort=b, qshift=q, J=j)
+            short = DTCWTForward(biort=b, qshift=q, J=j, mode=mode)
         _, yhs = core.libcall(short, x)
         for i in range(j):
             if not same(yhs[i], yh0[i]):
@@ -168,7 +171,7 @@ def run_case(case):
         else:
             r.fail('inverse_layout_values:o%d_ri%d' % (o % 6, ri % 6),
                    'inverse on layout (o_dim=%d, ri_dim=%d) differs from the default inverse by %.3g' % (o, ri, d))
-    if not any(skip):
+    if not any(skip) and mode == 'symmetric':
         xs = max(float(x.abs().max()), 1e-300)
         tol = (256 * core.EPS32 * 2 ** J if f32 else 1e-9 + 8 * J * dtu.qshift_residual(q)) * xs
         d = float((got[..., :H, :W] - x).abs().max())
